@@ -3,6 +3,7 @@ package c13
 import (
 	"bytes"
 	"context"
+	"errors"
 	"fmt"
 	"math/rand"
 	"net"
@@ -88,6 +89,12 @@ func fullStackRound(r *vk.Run, rng *rand.Rand, id int) {
 			return nil, cfg, nil, err
 		}
 		exec := world.NewExecDouble()
+		// a remote execution client: calls take a moment, and a call cut by the stop fails with a transport-style
+		// error (not Go's context error) in every second round
+		exec.CallDelay = time.Duration(1+rng.Intn(4)) * time.Millisecond
+		if id%2 == 0 {
+			exec.AbortErr = errors.New("rpc error: code = Canceled desc = context canceled")
+		}
 		database := world.NewMemDS(world.NewImage())
 		metrics, _ := single.NopMetrics()
 		ctx, cancel := context.WithCancel(context.Background())
@@ -136,10 +143,23 @@ func fullStackRound(r *vk.Run, rng *rand.Rand, id int) {
 		return
 	}
 	time.Sleep(time.Duration(600+rng.Intn(1500)) * time.Millisecond)
+	if id%2 == 0 {
+		// the stop arrives while the production loop and the inclusion loop are both inside calls to a remote
+		// execution client that hangs: both calls end with a transport-style error when the node gives up
+		agg.exec.BlockCalls(true)
+		deadline := time.Now().Add(5 * time.Second)
+		for time.Now().Before(deadline) {
+			if e, f := agg.exec.InFlight(); e > 0 && f > 0 {
+				r.Count("fullstack_stop_with_exec_and_final_in_flight", 1)
+				break
+			}
+			time.Sleep(time.Millisecond)
+		}
+	}
 	close(stopInject)
 	// stop both at seeded instants, in either order
 	first, second := agg, fulln
-	if rng.Intn(2) == 0 {
+	if rng.Intn(2) == 0 && id%2 != 0 {
 		first, second = fulln, agg
 	}
 	first.cancel()
